@@ -22,6 +22,7 @@ import (
 	"io"
 	"os"
 	"path/filepath"
+	"runtime/debug"
 	"sort"
 	"strings"
 	"testing"
@@ -115,6 +116,12 @@ func c37ParWant(content []byte) []DocumentSection {
 
 // c37ParRun builds the corpus with the given parallelism and returns the problems found.
 func c37ParRun(parallelism int) (problems []string, nDocs, nShards int, err error) {
+	defer func() {
+		// a panic on the calling goroutine (Builder.Add -> flush -> buildShard with Parallelism 1)
+		if p := recover(); p != nil {
+			problems, err = append(problems, fmt.Sprintf("the build panics: %v\n%s", p, debug.Stack())), nil
+		}
+	}()
 	os.Setenv(c37FakeEnv, "1")
 	defer os.Unsetenv(c37FakeEnv)
 	base := "/dev/shm"
